@@ -105,6 +105,7 @@ type sys struct {
 	fkChanged map[string]bool // left rows whose gameID changed since the last save
 	saves     int
 	hist      []int
+	baseFail  string // the pre-populated rows already fail the oracle: reported by the first operation
 }
 
 func (s *sys) modelString() string {
@@ -332,8 +333,8 @@ func (s *sys) verifySaved(r *vx.Run) string {
 		}
 	}
 	q := s.tab.GetQuery(s.kvdb)
-	list := func(name string, idx string, val []byte, match func(pk string, v rowv) bool, lister func() ([]*table.Row, error)) string {
-		rows, err := lister()
+	list := func(name string, idx string, val []byte, match func(pk string, v rowv) bool, lister func(cursor []byte, dir int32) ([]*table.Row, error)) string {
+		rows, err := lister(nil, dbm.ListASC)
 		var wantPk []string
 		for pk, v := range s.model {
 			if match(pk, v) {
@@ -359,28 +360,53 @@ func (s *sys) verifySaved(r *vx.Run) string {
 			return fmt.Sprintf("[api:listindex-wrong-rows] %s(%s=%q) = %v; model %v", name, idx, val, gotPk, wantPk)
 		}
 		outcome(r, fmt.Sprintf("%s/%d-rows", name, len(wantPk)))
+		// the same lookup with the other spellings of "no start position", in the other direction, and
+		// continued after the first row
+		pks := func(rows []*table.Row) string {
+			var l []string
+			for _, row := range rows {
+				l = append(l, string(row.Primary))
+			}
+			return fmt.Sprint(l)
+		}
+		if rows, err := lister([]byte{}, dbm.ListASC); err != nil || pks(rows) != fmt.Sprint(wantPk) {
+			return fmt.Sprintf("[api:listindex-empty-cursor-differs] %s(%s=%q) with an empty (non-nil) start key = %s,%v; with nil %v", name, idx, val, pks(rows), err, wantPk)
+		}
+		rev := append([]string{}, wantPk...)
+		sort.Sort(sort.Reverse(sort.StringSlice(rev)))
+		if rows, err := lister(nil, dbm.ListDESC); err != nil || pks(rows) != fmt.Sprint(rev) {
+			return fmt.Sprintf("[api:listindex-desc-differs] %s(%s=%q) descending = %s,%v; model %v", name, idx, val, pks(rows), err, rev)
+		}
+		rows, err = lister([]byte(wantPk[0]), dbm.ListASC)
+		if len(wantPk) == 1 {
+			if err != types.ErrNotFound {
+				return fmt.Sprintf("[api:listindex-continued-past-the-end] %s(%s=%q) after the only row = %s,%v", name, idx, val, pks(rows), err)
+			}
+		} else if err != nil || pks(rows) != fmt.Sprint(wantPk[1:]) {
+			return fmt.Sprintf("[api:listindex-continued-differs] %s(%s=%q) after row %q = %s,%v; model %v", name, idx, val, wantPk[0], pks(rows), err, wantPk[1:])
+		}
 		return ""
 	}
 	for _, val := range fieldvals {
 		val := val
 		if f := list("ListIndex", "gameID", []byte(val), func(pk string, v rowv) bool { return v.g == val },
-			func() ([]*table.Row, error) { return q.ListIndex("gameID", []byte(val), nil, 0, dbm.ListASC) }); f != "" {
+			func(c []byte, d int32) ([]*table.Row, error) { return q.ListIndex("gameID", []byte(val), c, 0, d) }); f != "" {
 			return f
 		}
 		if f := list("ListIndex", "addr", []byte(val), func(pk string, v rowv) bool { return v.a == val },
-			func() ([]*table.Row, error) { return q.ListIndex("addr", []byte(val), nil, 0, dbm.ListASC) }); f != "" {
+			func(c []byte, d int32) ([]*table.Row, error) { return q.ListIndex("addr", []byte(val), c, 0, d) }); f != "" {
 			return f
 		}
 		// Query.List by example row
 		if f := list("List", "addr", []byte(val), func(pk string, v rowv) bool { return v.a == val },
-			func() ([]*table.Row, error) {
-				return q.List("addr", &protodata.GameAddr{Addr: val}, nil, 0, dbm.ListASC)
+			func(c []byte, d int32) ([]*table.Row, error) {
+				return q.List("addr", &protodata.GameAddr{Addr: val}, c, 0, d)
 			}); f != "" {
 			return f
 		}
 	}
 	if f := list("ListIndex", "primary", nil, func(pk string, v rowv) bool { return true },
-		func() ([]*table.Row, error) { return q.ListIndex("primary", nil, nil, 0, dbm.ListASC) }); f != "" {
+		func(c []byte, d int32) ([]*table.Row, error) { return q.ListIndex("primary", nil, c, 0, d) }); f != "" {
 		return f
 	}
 	if s.join {
@@ -389,7 +415,7 @@ func (s *sys) verifySaved(r *vx.Run) string {
 				a, st := a, st
 				jk := table.JoinKey([]byte(a), []byte(fmt.Sprint(st)))
 				if f := list("JoinListIndex", "addr#status", jk, func(pk string, v rowv) bool { return v.a == a && s.games[v.g] == st },
-					func() ([]*table.Row, error) { return s.jt.ListIndex("addr#status", jk, nil, 0, dbm.ListASC) }); f != "" {
+					func(c []byte, d int32) ([]*table.Row, error) { return s.jt.ListIndex("addr#status", jk, c, 0, d) }); f != "" {
 					return f
 				}
 			}
@@ -398,7 +424,7 @@ func (s *sys) verifySaved(r *vx.Run) string {
 			st := st
 			jk := table.JoinKey(nil, []byte(fmt.Sprint(st)))
 			if f := list("JoinListIndex", "#status", jk, func(pk string, v rowv) bool { return s.games[v.g] == st },
-				func() ([]*table.Row, error) { return s.jt.ListIndex("#status", jk, nil, 0, dbm.ListASC) }); f != "" {
+				func(c []byte, d int32) ([]*table.Row, error) { return s.jt.ListIndex("#status", jk, c, 0, d) }); f != "" {
 				return f
 			}
 		}
@@ -513,7 +539,7 @@ func (h *harness) fresh() *sys {
 	}
 	if len(bk) > 0 || h.join {
 		if f := h.save(s); f != "" {
-			panic("base does not save: " + f)
+			s.baseFail = f + " (while saving the pre-populated rows)"
 		}
 		s.saves = 0
 	}
@@ -540,6 +566,9 @@ func (h *harness) save(s *sys) string {
 }
 
 func (h *harness) apply(s *sys, i int) string {
+	if s.baseFail != "" {
+		return s.baseFail
+	}
 	o := h.ops[i]
 	s.hist = append(s.hist, i)
 	r := h.r
